@@ -3,13 +3,22 @@
 #include "props/regp.hpp"
 using namespace rx;
 
-struct Spec { int kind; bool write, w16; uint16_t seq; uint32_t addr, n; Bytes payload; int code; uint32_t vaddr; int meta; int optx = -1; };   // kind 0 request 1 response 2 meta; optx >= 0: checksum option bits to use instead of the transport's canonical ones
+struct Spec { int kind; bool write, w16; uint16_t seq; uint32_t addr, n; Bytes payload; int code; uint32_t vaddr; int meta; int optx = -1; int dmg = 0; };   // kind 0 request 1 response 2 meta; dmg != 0: the frame is damaged on the way (see damaged()); optx >= 0: checksum option bits to use instead of the transport's canonical ones
 struct Case { bool serial, mem16, chunk_src, chunk_snk; uint32_t extra; std::vector<Spec> frames; };   // extra == 0: the receive block is exactly as large as the largest frame/answer needs
 
 static std::string ser_case(const Case &c) {
     std::string s = vp::fmt("session %d %d %d %d %u\n", (int)c.serial, (int)c.mem16, (int)c.chunk_src, (int)c.chunk_snk, c.extra);
-    for (auto &f : c.frames) s += vp::fmt("frame %d %d %d %u %u %u %d %u %d %s %d\n", f.kind, (int)f.write, (int)f.w16, f.seq, f.addr, f.n, f.code, f.vaddr, f.meta, f.payload.empty() ? "-" : vp::hex(f.payload).c_str(), f.optx);
+    for (auto &f : c.frames) s += vp::fmt("frame %d %d %d %u %u %u %d %u %d %s %d %d\n", f.kind, (int)f.write, (int)f.w16, f.seq, f.addr, f.n, f.code, f.vaddr, f.meta, f.payload.empty() ? "-" : vp::hex(f.payload).c_str(), f.optx, f.dmg);
     return s;
+}
+// damage 1/2: checksum field off by a few bits; 3..6: checksum field forced to 0x0000 / 0xffff (payload, header); 7/8: payload one octet short / long
+static Bytes damaged(const rp::Frame &fr, int dmg) {
+    rp::Damage d;
+    switch (dmg) { case 1: d.bad_hdcrc = true; break; case 2: d.bad_plcrc = true; break; case 3: d.force_plcrc = 0; break; case 4: d.force_plcrc = 0xffff; break; case 5: d.force_hdcrc = 0; break; case 6: d.force_hdcrc = 0xffff; break; default: break; }
+    Bytes raw = rp::encode(fr, d);
+    if (dmg == 7 && !fr.payload.empty()) raw.pop_back();
+    if (dmg == 8) raw.push_back(0x00);
+    return raw;
 }
 static size_t hdr_octets(bool serial, bool with_payload) { return 12 + (serial ? 2 + (with_payload ? 2 : 0) : 0); }
 
@@ -26,7 +35,7 @@ static std::string run_case(const Case &c, std::string &msg, bool classify) {
     size_t need = 16;
     for (auto &f : c.frames) {
         rp::Frame fr = build(f);
-        size_t raw = rp::encode(fr).size(), hdr = raw - fr.payload.size();
+        size_t raw = rp::encode(fr).size() + (f.dmg ? 1 : 0), hdr = raw - fr.payload.size();
         size_t answer = (f.kind == 0 && !f.write && f.w16 == c.mem16) ? (size_t)f.n * (c.mem16 ? 2 : 1) : 0;   // the read answer is assembled behind the received header
         need = std::max(need, std::max(raw, hdr + answer));
     }
@@ -38,6 +47,25 @@ static std::string run_case(const Case &c, std::string &msg, bool classify) {
         const Spec &sp = c.frames[i];
         rp::Frame fr = build(sp);
         rp::Frame chk;
+        if (sp.dmg) {
+            // a frame that fails reception never causes a memory access (what is replied is C07's subject)
+            Bytes raw = damaged(fr, sp.dmg);
+            rp::Verdict v = rp::decode(raw, chk);
+            if (v != rp::V_OK) {
+                S.feed(rp::on_wire(c.serial, raw));
+                size_t calls0 = be().log.size();
+                RPMaybeFrame mf; memset(&mf, 0, sizeof mf);
+                (void)regp_recv(&S.p, &mf);
+                (void)regp_process(&S.p, &mf);
+                (void)S.take_output();
+                size_t ncalls = be().log.size() - calls0;
+                if (mf.frame) regp_free(&S.p, mf.frame);
+                if (v != rp::V_DONTCARE && ncalls) { msg = vp::fmt("frame %zu (%s, damage %d, reference verdict %s): %zu memory accesses", i, rp::show(fr).c_str(), sp.dmg, rp::verdict_name[v], ncalls); return "failed-reception:memory-access"; }
+                if (S.led.outstanding() || S.led.double_free) { msg = vp::fmt("frame %zu (damaged): ledger unbalanced", i); return "ledger"; }
+                if (classify) { vp::count(); vp::cls(std::string("damaged-frame:") + rp::verdict_name[v]); if (sp.dmg >= 3 && sp.dmg <= 6) { vp::cls("damaged-frame:checksum-field-0000-or-ffff"); vp::nontrivial(vp::mix(vp::fnv(raw.data(), raw.size()), 99 + (uint64_t)sp.dmg)); } }
+                continue;
+            }
+        }
         if (rp::decode(rp::encode(fr), chk) != rp::V_OK) { msg = "generated frame is not valid under the reference decoder: " + rp::show(fr); return "harness:invalid-frame-generated"; }
         S.feed(rp::on_wire(c.serial, rp::encode(fr)));
         be().script.clear(); be().next = 0;
@@ -114,6 +142,7 @@ static rc::Gen<Case> genCase() {
             s.vaddr = *rc::gen::weightedOneOf<uint32_t>({{1, rc::gen::element<uint32_t>(0, 0xffffffffu, 0xdbdcddc0u)}, {1, rc::gen::arbitrary<uint32_t>()}});
             s.meta = *vprc::uni<int>(1, 2);
             s.optx = *rc::gen::weightedElement<int>({{5, -1}, {1, 0}, {1, rp::HDCRC}, {1, rp::PLCRC}, {1, rp::HDCRC | rp::PLCRC}});
+            s.dmg = *rc::gen::weightedOneOf<int>({{6, rc::gen::just(0)}, {1, vprc::uni<int>(1, 8)}});
             return s;
         }));
         return c;
@@ -128,7 +157,7 @@ static std::string oracle(const Case &c) {
 }
 static void run() {
     vp::stats().rule = "rc: sessions of 1..8 frames on one RegP instance (serial/tcp x 8/16-bit memory x octet/chunk endpoints x receive blocks exactly as large as the largest frame/answer needs, +0..40 octets; requests also with non-canonical checksum option bits): requests of all four kinds "
-                       "incl. word-size mismatches, block sizes 0..200, payloads rich in SLIP control octets, every back-end verdict (12 codes + address), interleaved response and meta frames; "
+                       "incl. word-size mismatches, block sizes 0..200, payloads rich in SLIP control octets, every back-end verdict (12 codes + address), interleaved response and meta frames and frames damaged on the way (checksum fields off by bits or forced to 0x0000/0xffff, payload one octet short/long: must not reach the back-end); "
                        "oracle = recording back-end (calls, arguments, payload) + reference decoder on the sink octets + allocation ledger";
     vprc::check<Case>("requests are executed once and answered faithfully", genCase(), oracle, ser_case);
 }
@@ -138,7 +167,7 @@ static bool replay(const std::string &text) {
         auto w = vp::split(l);
         if (w.size() >= 6 && w[0] == "session") { c.serial = atoi(w[1].c_str()); c.mem16 = atoi(w[2].c_str()); c.chunk_src = atoi(w[3].c_str()); c.chunk_snk = atoi(w[4].c_str()); c.extra = (uint32_t)strtoul(w[5].c_str(), 0, 10); have = true; }
         else if (w.size() >= 11 && w[0] == "frame") c.frames.push_back({atoi(w[1].c_str()), (bool)atoi(w[2].c_str()), (bool)atoi(w[3].c_str()), (uint16_t)strtoul(w[4].c_str(), 0, 10), (uint32_t)strtoul(w[5].c_str(), 0, 10),
-                                                                      (uint32_t)strtoul(w[6].c_str(), 0, 10), w[10] == "-" ? Bytes() : vp::unhex(w[10]), atoi(w[7].c_str()), (uint32_t)strtoul(w[8].c_str(), 0, 10), atoi(w[9].c_str()), w.size() >= 12 ? atoi(w[11].c_str()) : -1});
+                                                                      (uint32_t)strtoul(w[6].c_str(), 0, 10), w[10] == "-" ? Bytes() : vp::unhex(w[10]), atoi(w[7].c_str()), (uint32_t)strtoul(w[8].c_str(), 0, 10), atoi(w[9].c_str()), w.size() >= 12 ? atoi(w[11].c_str()) : -1, w.size() >= 13 ? atoi(w[12].c_str()) : 0});
     }
     if (!have) return false;
     std::string msg, key = run_case(c, msg, false);
